@@ -161,6 +161,11 @@ def _wrapper_case(rng, mode):
             k = wk[j] if wk[j] in ("av", "oa", "fa") and rng.chance(0.9) else rng.pick(["av", "oa", "fa"])
             s, n = src()
             opn = {"av": "av_set", "oa": "oa_assign", "fa": "fa_assign"}[k]
+            if k == "fa" and rng.chance(0.25):
+                # the assignment's element-block / control-block allocation fails: the array must stay what it was
+                c.append("fa_assign_fail%d %d %s vec" % (rng.pick([1, 2]), j, s))
+                obs(j)
+                continue
             c.append("%s %d %s %s" % (opn, j, s, via()))
             if wk[j] == k:
                 wn[j] = n
@@ -257,7 +262,7 @@ def gen_cases(rng, tier, h):
     return cases
 
 
-_MUT = ("av_new", "oa_new", "fa_new", "fa_size", "fav_new", "av_set", "oa_assign", "fa_assign", "oa_reset", "av_reset",
+_MUT = ("fa_assign_fail1", "fa_assign_fail2", "av_new", "oa_new", "fa_new", "fa_size", "fav_new", "av_set", "oa_assign", "fa_assign", "oa_reset", "av_reset",
         "oa_resize", "copy", "assign", "destroy", "wset", "buf_set", "buf_free", "buf_new", "dv_new", "dv_reset", "dv_copy", "bb_free")
 
 
